@@ -591,6 +591,8 @@ func init() {
 				{remotes: []string{"a1", "a2", "b1"}, per: 2, backlog: 2, bound: sb, strict: true},
 				{remotes: []string{"a1", "a2"}, per: 2, backlog: 128, batch: 2, partial: true, bound: sb, strict: true},
 				{remotes: []string{"a1", "a2", "b1"}, per: 1, backlog: 128, batch: 3, bound: sb, strict: true},
+				{remotes: []string{"a1", "a2"}, per: 2, backlog: 128, batch: 3, filter: true, bound: sb, strict: true},
+				{remotes: []string{"a1", "a2"}, per: 2, backlog: 1, batch: 2, bound: sb, strict: true},
 				{remotes: []string{"a1", "b1"}, per: 2, backlog: 128, closer: true, bound: sb, strict: true},
 			}
 			if tier == "thorough" {
@@ -625,6 +627,8 @@ func init() {
 				{accepted: 1, unaccepted: 0, lateNew: true, bound: b},
 			}
 			if tier == "thorough" {
+				// unbounded (closed by the state cache) for the smallest lifecycles
+				cfgs[0].bound, cfgs[1].bound, cfgs[5].bound = -1, -1, -1
 				cfgs = append(cfgs, c12cfg{accepted: 2, unaccepted: 1, pendingAccept: true, pendingRead: true, bound: 2},
 					c12cfg{accepted: 1, unaccepted: 1, pendingAccept: true, late: true, bound: 3},
 					c12cfg{accepted: 0, unaccepted: 1, pendingAccept: true, bound: 4})
